@@ -886,7 +886,8 @@ class CircularDetector(Detector):
     def __repr__(self):
         """Return ``repr(self)``."""
         posargs = [self.partition]
-        optargs = [('radius', array_str(self.center), '')]
+        optargs = [('axis', array_str(self.axis), ''),
+                   ('radius', self.radius, -1)]
         inner_str = signature_string(posargs, optargs, sep=',\n')
         return '{}(\n{}\n)'.format(self.__class__.__name__, indent(inner_str))
 
@@ -1148,7 +1149,8 @@ class CylindricalDetector(Detector):
     def __repr__(self):
         """Return ``repr(self)``."""
         posargs = [self.partition]
-        optargs = [('radius', array_str(self.center), '')]
+        optargs = [('axes', tuple(array_str(ax) for ax in self.axes), None),
+                   ('radius', self.radius, -1)]
         inner_str = signature_string(posargs, optargs, sep=',\n')
         return '{}(\n{}\n)'.format(self.__class__.__name__, indent(inner_str))
 
@@ -1420,7 +1422,8 @@ class SphericalDetector(Detector):
     def __repr__(self):
         """Return ``repr(self)``."""
         posargs = [self.partition]
-        optargs = [('radius', array_str(self.center), '')]
+        optargs = [('axes', tuple(array_str(ax) for ax in self.axes), None),
+                   ('radius', self.radius, -1)]
         inner_str = signature_string(posargs, optargs, sep=',\n')
         return '{}(\n{}\n)'.format(self.__class__.__name__, indent(inner_str))
 
